@@ -701,6 +701,20 @@ class ComponentProjectionAdjoint(Operator):
             out.set_zero()
 
         out[self.index] = x
+
+        if isinstance(self.index, Integral):
+            # A single component does not carry its weight in the product
+            # space, hence it needs to be compensated here. For slices and
+            # lists, the subspace has the weights of the selected components.
+            weighting = self.range.weighting
+            weight = getattr(weighting, 'array', None)
+            if weight is not None:
+                weight = weight[self.index]
+            else:
+                weight = getattr(weighting, 'const', 1.0)
+            if weight != 1.0:
+                out[self.index] /= weight
+
         return out
 
     @property
